@@ -21,7 +21,7 @@ EXL_ALPHA = ALPHA.replace(",", "")
 def plan(tier):
     if tier == "quick":
         return [("debug", 16, dict(ncfg=150, nexl=150, edits=10))]
-    return [("debug", 16, dict(ncfg=1300, nexl=1300, edits=14)), ("release", 2, dict(ncfg=300, nexl=300, edits=10))]
+    return [("debug", 16, dict(ncfg=2500, nexl=2500, edits=14)), ("release", 4, dict(ncfg=600, nexl=600, edits=10))]
 
 
 def word(rng, a, b, alpha=ALPHA):
